@@ -107,6 +107,14 @@ func sharedBucketNontrivial(w *World, hist []Op) bool {
 	return n >= 2
 }
 
+func c01Preambles() [][]Op {
+	return [][]Op{
+		{P(4, 1), opF, R(4), opF},
+		{P(0, 1), P(1, 1), opF, R(0), opF},
+		{P(0, 1), P(1, 2), P(3, 1), opF, R(1), P(1, 1)},
+	}
+}
+
 func c01Scenarios(tier string) []*SeqScenario {
 	var scs []*SeqScenario
 	if tier == "quick" {
@@ -114,6 +122,13 @@ func c01Scenarios(tier string) []*SeqScenario {
 		alpha = append(alpha, Op{Kind: OpPut, K: 0, V: 4}, Op{Kind: OpPut, K: 1, V: 4}, Op{Kind: OpPut, K: 5, V: 1}, Op{Kind: OpFlush}, Op{Kind: OpReads})
 		for _, c := range quickConfigs() {
 			scs = append(scs, &SeqScenario{Prop: "C01", Name: "c01-quick", Cfg: c, Alphabet: alpha, Depth: 4, Nontrivial: sharedBucketNontrivial})
+		}
+		// non-initial start states: a bucket whose only key was removed and
+		// flushed, a bucket that lost one of two keys, overwritten keys
+		for _, c := range []Config{cfg("mh", false, 8, 48, 48), cfg("cid", false, 8, 1, bigFile), cfg("mh", true, 12, bigFile, bigFile)} {
+			for _, pre := range c01Preambles() {
+				scs = append(scs, &SeqScenario{Prop: "C01", Name: "c01-pre", Cfg: c, Preamble: pre, Alphabet: alpha, Depth: 3, Nontrivial: sharedBucketNontrivial})
+			}
 		}
 		return scs
 	}
@@ -130,6 +145,9 @@ func c01Scenarios(tier string) []*SeqScenario {
 		Op{Kind: OpGet, K: 0}, Op{Kind: OpGet, K: 1}, Op{Kind: OpHas, K: 2}, Op{Kind: OpGetSize, K: 3})
 	for _, c := range quickConfigs() {
 		scs = append(scs, &SeqScenario{Prop: "C01", Name: "c01-wide", Cfg: c, Alphabet: wide, Depth: 4, Nontrivial: sharedBucketNontrivial})
+		for _, pre := range c01Preambles() {
+			scs = append(scs, &SeqScenario{Prop: "C01", Name: "c01-pre", Cfg: c, Preamble: pre, Alphabet: alpha, Depth: 4, Nontrivial: sharedBucketNontrivial})
+		}
 	}
 	return scs
 }
@@ -254,6 +272,7 @@ func gcConfigs(tier string) []Config {
 		cfg("mh", false, 8, 48, 48),
 		cfg("mh", false, 8, 48, 1),
 		cfg("cid", false, 8, 1, bigFile),
+		cfg("mh", false, 8, 48, 100),
 	}
 	if tier != "quick" {
 		cs = append(cs,
@@ -290,6 +309,12 @@ func gcPreambles() [][]Op {
 		// index file 0 = [R1 bucket of K0][R2 bucket of K4][R3 bucket of K5];
 		// R2 superseded and already marked deleted by one GC cycle
 		{P(0, 1), F, P(4, 1), F, P(5, 1), F, P(4, 2), F, {Kind: OpIdxGC, B: true}},
+		// a middle index file (1-byte limits) that is fully superseded while
+		// the first file stays referenced
+		{P(0, 1), F, P(4, 1), F, P(4, 2), F},
+		// primary file 0 (100-byte limit) = [K0=L70, K3=bb, K1=a]: low-use once
+		// K0 is superseded, its last two records have different sizes
+		{P(0, 5), P(3, 2), P(1, 1), F, P(4, 1), F, P(0, 1), F},
 	}
 }
 
@@ -488,7 +513,8 @@ func c02Scenarios(tier string) []*SeqScenario {
 	for _, c := range cfgs {
 		scs = append(scs, &SeqScenario{Prop: "C02", Name: "c02", Cfg: c, Alphabet: alpha, Depth: depth, Allow: allow,
 			Final: c02Final, Oracles: []string{"map", "diff"}, Nontrivial: nontriv})
-		for pi, pre := range gcPreambles()[1:3] {
+		c02pres := append(append([][]Op{}, gcPreambles()[1:3]...), gcPreambles()[8])
+		for pi, pre := range c02pres {
 			_ = pi
 			scs = append(scs, &SeqScenario{Prop: "C02", Name: "c02-pre", Cfg: c, Preamble: pre, Alphabet: alpha, Depth: depth - 2, Allow: allow,
 				Final: c02Final, Oracles: []string{"map", "diff"}, Nontrivial: nontriv})
@@ -765,6 +791,10 @@ func c11Scenarios(tier string) []*SeqScenario {
 		scs = append(scs, &SeqScenario{Prop: "C11", Name: fmt.Sprintf("c11/lowuse/thr=%d", thr), Cfg: lowUse,
 			Preamble: []Op{P(0, 5), P(1, 1), P(3, 2), opF, P(4, 1), opF}, Alphabet: alphaFor(thr), Depth: depth - 1,
 			Setup: withLedger, Final: reclaimFinalMode(true, true, thr), Oracles: []string{"reclaim"}})
+		// the surviving record is the first record of the file (offset 0)
+		scs = append(scs, &SeqScenario{Prop: "C11", Name: fmt.Sprintf("c11/lowuse-first/thr=%d", thr), Cfg: lowUse,
+			Preamble: []Op{P(1, 1), P(0, 5), P(3, 2), opF, P(4, 1), opF}, Alphabet: alphaFor(thr), Depth: depth - 1,
+			Setup: withLedger, Final: reclaimFinalMode(true, true, thr), Oracles: []string{"reclaim"}})
 	}
 	for _, c := range cfgs {
 		for pi, pre := range gcPreambles() {
@@ -814,6 +844,8 @@ func c09Final(b2 uint8) func(w *World, c *Collector) *Violation {
 	return func(w *World, c *Collector) *Violation {
 		steps := []Op{{Kind: OpFlush}, {Kind: OpRebits, A: int(b2)}, {Kind: OpReads}, {Kind: OpIterate},
 			{Kind: OpPut, K: 2, V: 2}, {Kind: OpRemove, K: 0}, {Kind: OpPut, K: 1, V: 3}, {Kind: OpFlush}, {Kind: OpReads},
+			{Kind: OpPut, K: 3, V: 2}, {Kind: OpFlush}, {Kind: OpPut, K: 5, V: 1}, {Kind: OpFlush}, {Kind: OpPut, K: 0, V: 1}, {Kind: OpFlush},
+			{Kind: OpPut, K: 4, V: 2}, {Kind: OpFlush}, {Kind: OpReads},
 			{Kind: OpReopen, A: 1}, {Kind: OpReads}, {Kind: OpRebits, A: int(b2)}, {Kind: OpReads}}
 		if w.Cfg.Immutable {
 			steps[6] = Op{Kind: OpReads}
@@ -857,6 +889,18 @@ func c09Scenarios(tier string) []*SeqScenario {
 				cc := cfg(p, false, b1, 48, pfs)
 				scs = append(scs, &SeqScenario{Prop: "C09", Name: fmt.Sprintf("c09/%d->%d", b1, b2), Cfg: cc, Alphabet: alpha, Depth: depth,
 					Setup: c09Setup(mb), Final: c09Final(b2), Nontrivial: sharedBucketNontrivial})
+				if p == "mh" && (b1 == 8 || b2 == 8) {
+					// a record list that starts in the last 4 bytes below the
+					// index file-size limit; an index whose first files were
+					// already removed by GC (1-byte limits)
+					scs = append(scs, &SeqScenario{Prop: "C09", Name: fmt.Sprintf("c09-straddle/%d->%d", b1, b2), Cfg: cc,
+						Preamble: []Op{P(4, 1), opF, P(4, 2), opF, P(4, 1), opF}, Alphabet: alpha, Depth: depth - 2,
+						Setup: c09Setup(mb), Final: c09Final(b2), Nontrivial: sharedBucketNontrivial})
+					c1 := cfg(p, false, b1, 1, 1)
+					scs = append(scs, &SeqScenario{Prop: "C09", Name: fmt.Sprintf("c09-firstfile/%d->%d", b1, b2), Cfg: c1,
+						Preamble: []Op{P(0, 1), opF, P(4, 1), opF, P(0, 2), opF, P(4, 2), opF, P(0, 1), opF, {Kind: OpIdxGC, B: true}}, Alphabet: alpha, Depth: depth - 2,
+						Setup: c09Setup(mb), Final: c09Final(b2), Nontrivial: sharedBucketNontrivial})
+				}
 			}
 		}
 	}
@@ -1087,6 +1131,7 @@ func legacyHistories(tier string) [][]Op {
 		{P(0, 5), P(1, 1), opF, P(0, 1), P(2, 2), P(4, 5), opF, P(4, 1), opF},
 		{P(0, 1), opF},
 		{},
+		{P(3, 1), P(0, 1), P(1, 1), opF},
 	}
 	if tier != "quick" {
 		hs = append(hs,
@@ -1112,7 +1157,7 @@ func runC10Seq(c *Collector) {
 	// 24 = two 12-byte records, 36 = three, 44 = two 22-byte record lists:
 	// chunks that end exactly on the limit
 	sizes := []uint32{1, 24, 36, 40, 44, 64, bigFile}
-	cuts := []int{0, 3}
+	cuts := []int{0, 3, 20}
 	unit := 0
 	for hi, hist := range legacyHistories(c.job.Tier) {
 		for _, cut := range cuts {
